@@ -544,6 +544,87 @@ def _search_loop(stmts, retname: str):
     return stmts[:-2] + [init, loop, ast.copy_location(ast.Return(ast.Name(retname, ast.Load())), last)]
 
 
+def _void_returns(helper):
+    """A copy of a procedure (no return values) without `return` statements: a `return` in tail position is dropped, guard
+    clauses are read as nesting, and - when the procedure ends in a loop - a `return` inside that loop (not inside a loop nested in
+    it) is the `break` of that loop.  None when some `return` is anywhere else."""
+    h = copy.deepcopy(helper)
+    body = h.body
+    start = 1 if body and isinstance(body[0], ast.Expr) and isinstance(body[0].value, ast.Constant) and isinstance(body[0].value.value, str) else 0
+    rest = body[start:]
+    ok = True
+
+    def in_final_loop(block):
+        """returns under ifs (not under further loops / try) of a loop body -> break"""
+        nonlocal ok
+        out = []
+        for st in block:
+            if isinstance(st, ast.Return):
+                out.append(ast.copy_location(ast.Break(), st))
+                continue
+            if isinstance(st, ast.If):
+                st.body = in_final_loop(st.body)
+                st.orelse = in_final_loop(st.orelse)
+            elif any(isinstance(x, ast.Return) for x in ast.walk(st)):
+                ok = False
+            out.append(st)
+        return out
+    if rest and isinstance(rest[-1], (ast.While, ast.For)) and not rest[-1].orelse and any(isinstance(x, ast.Return) for x in ast.walk(rest[-1])):
+        rest[-1].body = in_final_loop(rest[-1].body)
+        if not ok:
+            return None
+    rest = _nest_guards_void(rest)
+
+    def tail(stmts):
+        nonlocal ok
+        for st in stmts[:-1]:
+            if any(isinstance(x, ast.Return) for x in ast.walk(st)):
+                ok = False
+        if not stmts:
+            return
+        last = stmts[-1]
+        if isinstance(last, ast.Return):
+            stmts[-1] = ast.copy_location(ast.Pass(), last)
+        elif isinstance(last, ast.If):
+            tail(last.body)
+            tail(last.orelse)
+        elif isinstance(last, ast.Try) and not last.finalbody and not last.orelse:
+            tail(last.body)
+            for hd in last.handlers:
+                tail(hd.body)
+        elif isinstance(last, ast.With):
+            tail(last.body)
+        elif any(isinstance(x, ast.Return) for x in ast.walk(last)):
+            ok = False
+    tail(rest)
+    if not ok:
+        return None
+    h.body = body[:start] + (rest or [ast.Pass()])
+    ast.fix_missing_locations(h)
+    return h
+
+
+def _nest_guards_void(stmts):
+    """as _nest_guards, for procedures: `if c: ...; return` followed by REST is `if c: ... else: REST`"""
+    out = []
+    for i, st in enumerate(stmts):
+        if isinstance(st, ast.If):
+            st.body = _nest_guards_void(st.body)
+            st.orelse = _nest_guards_void(st.orelse)
+            rest = stmts[i + 1:]
+            if rest and any(isinstance(x, ast.Return) for x in ast.walk(st)):
+                if not _always_exits(st.body):
+                    st.body = st.body + copy.deepcopy(rest)
+                if not _always_exits(st.orelse):
+                    st.orelse = st.orelse + copy.deepcopy(rest)
+                st.body = _nest_guards_void(st.body)
+                st.orelse = _nest_guards_void(st.orelse)
+                out.append(st)
+                return out
+        out.append(st)
+    return out
+
+
 def _tailify(helper, retname: str):
     """A copy of the helper whose `return e` statements - all in structural tail position (last statement of the body, of an
     if/else arm, of a try body without else/finally, of an except handler, of a with body; never in a loop) and with every
@@ -602,6 +683,14 @@ def _expand(helper, call, caller, cls, target_names: set, mode: str, tuple_targe
     if bound is None:
         return None
     rets = _returns(helper)
+    if mode == "expr" and rets and not (len(rets) == 1 and rets[0][1] == 0 and rets[0][0] is helper.body[-1]) \
+            and all(r.value is None or (isinstance(r.value, ast.Constant) and r.value.value is None) for r, _ in rets):
+        # a procedure with early `return`s: guard clauses read as nesting, `return` inside its final loop read as `break`
+        h2 = _void_returns(helper)
+        if h2 is None:
+            return None
+        helper = h2
+        rets = _returns(helper)
     if mode == "value" and not (len(rets) == 1 and rets[0][1] == 0 and rets[0][0] is helper.body[-1]):
         # several returns, all in tail position: read as assignments of the result
         retname = next(iter(target_names)) if len(target_names) == 1 and next(iter(target_names)) not in _local_names(helper) else f"ret__{helper.name.strip('_')}"
